@@ -1,6 +1,6 @@
 //! C19 — no panic and guaranteed termination on any finite input; non-finite coordinates are refused.
 
-use delaunay::core::delaunay_triangulation::{ConstructionOptions, DelaunayTriangulation};
+use delaunay::core::delaunay_triangulation::{ConstructionOptions, DedupPolicy, DelaunayTriangulation, InsertionOrderStrategy};
 use delaunay::core::triangulation::TopologyGuarantee;
 use delaunay::geometry::kernel::{FastKernel, Kernel, RobustKernel};
 use delaunay::geometry::point::Point;
@@ -200,11 +200,22 @@ fn constructions<K: Kernel<D, Scalar = f64>, const D: usize>(rep: &Report, cn: &
     sets.par_iter().for_each(|s| {
         let pts: Vec<[f64; D]> = s.iter().map(|&i| alphabet[i]).collect();
         let vs: Vec<_> = pts.iter().enumerate().map(|(i, c)| mk_vertex::<i32, D>(*c, 1 + i as u128, Some(i as i32))).collect();
+        // every option family that preprocesses the input: dedup policies (epsilon dedup quantises coordinate / tolerance)
+        // and the orderings (Hilbert / Morton quantise against the bounding box)
+        let opts: Vec<(&str, ConstructionOptions)> = vec![
+            ("default", ConstructionOptions::default()),
+            ("exact", ConstructionOptions::default().with_dedup_policy(DedupPolicy::Exact)),
+            ("eps1e-10", ConstructionOptions::default().with_dedup_policy(DedupPolicy::Epsilon { tolerance: 1e-10 })),
+            ("eps1e-3/morton", ConstructionOptions::default().with_dedup_policy(DedupPolicy::Epsilon { tolerance: 1e-3 }).with_insertion_order(InsertionOrderStrategy::Morton)),
+            ("lexicographic", ConstructionOptions::default().with_insertion_order(InsertionOrderStrategy::Lexicographic)),
+            ("input", ConstructionOptions::default().with_insertion_order(InsertionOrderStrategy::Input)),
+        ];
+        for (oname, opt) in opts {
         cn.constructions.fetch_add(1, Ordering::Relaxed);
         let t0 = Instant::now();
-        let r = guarded(|| DelaunayTriangulation::<K, i32, (), D>::with_topology_guarantee_and_options(&K::default(), &vs, TopologyGuarantee::PLManifold, ConstructionOptions::default()));
+        let r = guarded(|| DelaunayTriangulation::<K, i32, (), D>::with_topology_guarantee_and_options(&K::default(), &vs, TopologyGuarantee::PLManifold, opt));
         let secs = t0.elapsed().as_secs_f64();
-        let replay = || json!({"D": D, "kernel": kname, "points": pts.iter().map(|p| p.iter().map(|x| format!("{x:e}")).collect::<Vec<_>>()).collect::<Vec<_>>()});
+        let replay = || json!({"D": D, "kernel": kname, "options": oname, "points": pts.iter().map(|p| p.iter().map(|x| format!("{x:e}")).collect::<Vec<_>>()).collect::<Vec<_>>()});
         let classes: Vec<&str> = pts.iter().map(|p| coord_class(p)).collect();
         let worst = ["nan", "inf", "huge", "tiny", "ordinary"].into_iter().find(|c| classes.contains(c)).unwrap_or("ordinary");
         match r {
@@ -219,6 +230,7 @@ fn constructions<K: Kernel<D, Scalar = f64>, const D: usize>(rep: &Report, cn: &
         }
         if secs > CEILING_S {
             rep.violation(Finding { signature: json!({"check": "work_ceiling", "op": "construct", "D": D}), description: format!("batch construction of {} points took {secs:.1}s", pts.len()), replay: replay() });
+        }
         }
     });
 }
